@@ -208,6 +208,54 @@ impl SimFs {
         Ok((fd, key, created, truncated))
     }
 
+    /// `rename(2)` for regular files (directories are not moved by anything under test).
+    pub fn rename(&mut self, from: &str, to: &str) -> Result<(String, String), i32> {
+        let (fk, fexists) = self.resolve(from)?;
+        if !fexists {
+            return Err(ENOENT);
+        }
+        let (tk, texists) = self.resolve(to)?;
+        if matches!(self.nodes.get(&fk), Some(Node::Dir)) {
+            return Err(EINVAL);
+        }
+        if texists && matches!(self.nodes.get(&tk), Some(Node::Dir)) {
+            return Err(EISDIR);
+        }
+        let node = self.nodes.remove(&fk).unwrap();
+        self.nodes.insert(tk.clone(), node);
+        for f in self.fds.values_mut() {
+            if f.path == fk {
+                f.path = tk.clone();
+            }
+        }
+        Ok((fk, tk))
+    }
+
+    pub fn unlink(&mut self, path: &str) -> Result<String, i32> {
+        let (k, exists) = self.resolve(path)?;
+        if !exists {
+            return Err(ENOENT);
+        }
+        if matches!(self.nodes.get(&k), Some(Node::Dir)) {
+            return Err(EISDIR);
+        }
+        self.nodes.remove(&k);
+        Ok(k)
+    }
+
+    /// `(is_dir, len)` of an existing path.
+    pub fn stat(&self, path: &str) -> Result<(bool, u64), i32> {
+        let (k, exists) = self.resolve(path)?;
+        if !exists {
+            return Err(ENOENT);
+        }
+        Ok(match self.nodes.get(&k) {
+            Some(Node::Dir) => (true, 4096),
+            Some(Node::File(b)) => (false, b.len() as u64),
+            None => return Err(ENOENT),
+        })
+    }
+
     pub fn fd_key(&self, fd: u64) -> Option<&str> {
         self.fds.get(&fd).map(|f| f.path.as_str())
     }
